@@ -416,4 +416,230 @@ theorem flood_inv {rows cols : Nat} {mask : Array Bool} {conn8 : Bool} {S0 : Nat
       simp only [List.length_cons] at h
       omega
 
+
+theorem U_le (n : Nat) (mask seen : Array Bool) : U n mask seen ≤ n := by
+  unfold U
+  exact Nat.le_trans List.countP_le_length (by simp)
+
+/-- **one flood from a fresh seed marks exactly the seed's component** (and reports whether it meets the border),
+    provided the set visited before is closed under the edges of the graph -/
+theorem flood_seed {rows cols : Nat} {mask : Array Bool} {conn8 : Bool} {seed : Nat} (seen0 : Array Bool)
+    (hV : IsV rows cols mask seed) (hs : sn seen0 seed = false)
+    (H0 : ∀ k j, IsV rows cols mask k → IsV rows cols mask j → adjIdx rows cols conn8 k j →
+      sn seen0 j = true → sn seen0 k = true) :
+    (∀ k, sn (flood rows cols mask conn8 (rows * cols + 1) [seed] (seen0.setIfInBounds seed true) false).1 k = true ↔
+        (sn seen0 k = true ∨ IConn rows cols mask conn8 seed k)) ∧
+    (∀ k, IConn rows cols mask conn8 seed k → sn seen0 k = false) ∧
+    ((flood rows cols mask conn8 (rows * cols + 1) [seed] (seen0.setIfInBounds seed true) false).2 = true ↔
+        ∃ k, IConn rows cols mask conn8 seed k ∧ bdr rows cols k = true) := by
+  have I0 : Inv rows cols mask conn8 (fun k => sn seen0 k = true) seed [seed]
+      (seen0.setIfInBounds seed true) false := by
+    have hcontra : ∀ k, sn (seen0.setIfInBounds seed true) k = true → ¬ sn seen0 k = true → k ∉ [seed] → False := by
+      intro k h1 h2 h3
+      simp only [sn_mark, Bool.or_eq_true, decide_eq_true_eq] at h1
+      rcases h1 with h | h
+      · exact h3 (by simp [h])
+      · exact h2 h
+    refine ⟨by simp [sn_mark], ?_, ?_, ?_, ?_, ?_, ?_⟩
+    · intro k hk
+      have : k = seed := by simpa using hk
+      subst this
+      exact ⟨hV, by simp [sn_mark], by simp [hs], Relation.ReflTransGen.refl⟩
+    · intro k hk
+      simp only [sn_mark, Bool.or_eq_true, decide_eq_true_eq] at hk
+      rcases hk with h | h
+      · subst h; exact Or.inr Relation.ReflTransGen.refl
+      · exact Or.inl h
+    · intro k hk
+      simp [sn_mark, hk]
+    · intro k h1 h2 h3
+      exact (hcontra k h1 h2 h3).elim
+    · intro h; cases h
+    · intro k h1 h2 h3
+      exact (hcontra k h1 h2 h3).elim
+  have hfuel : [seed].length + U (rows * cols) mask (seen0.setIfInBounds seed true) ≤ rows * cols + 1 := by
+    have := U_mark (rows * cols) mask seen0 seed hV.1 hV.2 hs
+    have := U_le (rows * cols) mask seen0
+    simp only [List.length_cons, List.length_nil]
+    omega
+  have I := flood_inv _ _ _ _ I0 hfuel
+  generalize flood rows cols mask conn8 (rows * cols + 1) [seed] (seen0.setIfInBounds seed true) false = r at I ⊢
+  have key : ∀ k, IConn rows cols mask conn8 seed k → sn r.1 k = true ∧ ¬ sn seen0 k = true := by
+    intro k hk
+    induction hk with
+    | refl => exact ⟨I.sd, by simp [hs]⟩
+    | tail _ hbc ih =>
+      obtain ⟨hVb, hVc, hadj⟩ := hbc
+      refine ⟨I.closed _ ih.1 ih.2 (by simp) _ hadj hVc, ?_⟩
+      intro h
+      exact ih.2 (H0 _ _ hVb hVc hadj h)
+  refine ⟨?_, ?_, ?_⟩
+  · intro k
+    constructor
+    · exact I.snd k
+    · rintro (h | h)
+      · exact I.mono k h
+      · exact (key k h).1
+  · intro k hk
+    have := (key k hk).2
+    simpa using this
+  · constructor
+    · intro h
+      obtain ⟨k, h1, h2, h3⟩ := I.tbs h
+      rcases I.snd k h1 with h4 | h4
+      · exact absurd h4 h2
+      · exact ⟨k, h4, h3⟩
+    · rintro ⟨k, h1, h2⟩
+      exact I.tbc k (key k h1).1 (key k h1).2 (by simp) h2
+
+/-! ## the outer loop of `countComps` -/
+
+/-- the body of the outer loop -/
+def outF (rows cols : Nat) (mask : Array Bool) (conn8 : Bool) (acc : Array Bool × Nat × Nat) (i : Nat) :
+    Array Bool × Nat × Nat :=
+  if (mk mask i && !sn acc.1 i) = true then
+    ((flood rows cols mask conn8 (rows * cols + 1) [i] (acc.1.setIfInBounds i true) false).1, acc.2.1 + 1,
+      acc.2.2 + (if (flood rows cols mask conn8 (rows * cols + 1) [i] (acc.1.setIfInBounds i true) false).2 then 1 else 0))
+  else acc
+
+theorem countComps_eq (rows cols : Nat) (mask : Array Bool) (conn8 : Bool) :
+    countComps rows cols mask conn8 =
+      (((List.range (rows * cols)).foldl (outF rows cols mask conn8) (Array.replicate (rows * cols) false, 0, 0)).2.1,
+       ((List.range (rows * cols)).foldl (outF rows cols mask conn8) (Array.replicate (rows * cols) false, 0, 0)).2.2) := rfl
+
+/-- the component of `s` contains a border pixel -/
+def Touches (rows cols : Nat) (mask : Array Bool) (conn8 : Bool) (s : Nat) : Prop :=
+  ∃ k, IConn rows cols mask conn8 s k ∧ bdr rows cols k = true
+
+structure OInv (rows cols : Nat) (mask : Array Bool) (conn8 : Bool) (m : Nat) (acc : Array Bool × Nat × Nat)
+    (seeds seeds2 : List Nat) : Prop where
+  nd : seeds.Nodup
+  len : seeds.length = acc.2.1
+  sV : ∀ s ∈ seeds, IsV rows cols mask s
+  smin : ∀ s ∈ seeds, ∀ k, IConn rows cols mask conn8 s k → s ≤ k
+  sep : ∀ s ∈ seeds, ∀ s' ∈ seeds, IConn rows cols mask conn8 s s' → s = s'
+  seen : ∀ k, sn acc.1 k = true ↔ (rows * cols ≤ k ∨ ∃ s ∈ seeds, IConn rows cols mask conn8 s k)
+  done : ∀ k, k < m → IsV rows cols mask k → sn acc.1 k = true
+  nd2 : seeds2.Nodup
+  len2 : seeds2.length = acc.2.2
+  mem2 : ∀ s, s ∈ seeds2 ↔ (s ∈ seeds ∧ Touches rows cols mask conn8 s)
+
+theorem OInv.next {rows cols : Nat} {mask : Array Bool} {conn8 : Bool} {m : Nat} {acc : Array Bool × Nat × Nat}
+    {seeds seeds2 : List Nat} (O : OInv rows cols mask conn8 m acc seeds seeds2) (hm : m < rows * cols) :
+    ∃ seeds' seeds2', OInv rows cols mask conn8 (m + 1) (outF rows cols mask conn8 acc m) seeds' seeds2' := by
+  unfold outF
+  by_cases hc : (Mahotas.C15.mk mask m && !sn acc.1 m) = true
+  · rw [if_pos hc]
+    simp only [Bool.and_eq_true, Bool.not_eq_true'] at hc
+    obtain ⟨hmk, hs⟩ := hc
+    have hV : IsV rows cols mask m := ⟨hm, hmk⟩
+    have H0 : ∀ k j, IsV rows cols mask k → IsV rows cols mask j → adjIdx rows cols conn8 k j →
+        sn acc.1 j = true → sn acc.1 k = true := by
+      intro k j hVk hVj hadj hj
+      rcases (O.seen j).mp hj with h | ⟨s, hs1, hs2⟩
+      · exact absurd hVj.1 (by omega)
+      · exact (O.seen k).mpr (Or.inr ⟨s, hs1,
+          Relation.ReflTransGen.tail hs2 ⟨hVj, hVk, adjIdx_symm hVk.1 hadj⟩⟩)
+    obtain ⟨F1, F2, F3⟩ := flood_seed (conn8 := conn8) acc.1 hV hs H0
+    generalize flood rows cols mask conn8 (rows * cols + 1) [m] (acc.1.setIfInBounds m true) false = r at F1 F3 ⊢
+    have hseen_seed : ∀ s ∈ seeds, sn acc.1 s = true := fun s hs' =>
+      (O.seen s).mpr (Or.inr ⟨s, hs', Relation.ReflTransGen.refl⟩)
+    have hmnot : m ∉ seeds := by
+      intro h
+      rw [hseen_seed m h] at hs; cases hs
+    have nd' : (m :: seeds).Nodup := List.nodup_cons.mpr ⟨hmnot, O.nd⟩
+    have sV' : ∀ s ∈ m :: seeds, IsV rows cols mask s := by
+      intro s hs'
+      rcases List.mem_cons.mp hs' with e | e
+      · subst e; exact hV
+      · exact O.sV s e
+    have smin' : ∀ s ∈ m :: seeds, ∀ k, IConn rows cols mask conn8 s k → s ≤ k := by
+      intro s hs' k hk
+      rcases List.mem_cons.mp hs' with e | e
+      · subst e
+        apply Nat.le_of_not_lt
+        intro hlt
+        have h1 := O.done k hlt (hk.isV hV)
+        rw [F2 k hk] at h1; cases h1
+      · exact O.smin s e k hk
+    have sep' : ∀ s ∈ m :: seeds, ∀ s' ∈ m :: seeds, IConn rows cols mask conn8 s s' → s = s' := by
+      intro s hs1 s' hs2 hk
+      rcases List.mem_cons.mp hs1 with e | e <;> rcases List.mem_cons.mp hs2 with e' | e'
+      · rw [e, e']
+      · subst e
+        have := F2 s' hk
+        rw [hseen_seed s' e'] at this; cases this
+      · subst e'
+        have := (O.seen s').mpr (Or.inr ⟨s, e, hk⟩)
+        rw [this] at hs; cases hs
+      · exact O.sep s e s' e' hk
+    have seen' : ∀ k, sn r.1 k = true ↔
+        (rows * cols ≤ k ∨ ∃ s ∈ m :: seeds, IConn rows cols mask conn8 s k) := by
+      intro k
+      rw [F1 k, O.seen k]
+      constructor
+      · rintro ((h | ⟨s, h1, h2⟩) | h)
+        · exact Or.inl h
+        · exact Or.inr ⟨s, List.mem_cons_of_mem _ h1, h2⟩
+        · exact Or.inr ⟨m, List.mem_cons_self, h⟩
+      · rintro (h | ⟨s, h1, h2⟩)
+        · exact Or.inl (Or.inl h)
+        · rcases List.mem_cons.mp h1 with e | e
+          · subst e; exact Or.inr h2
+          · exact Or.inl (Or.inr ⟨s, e, h2⟩)
+    have done' : ∀ k, k < m + 1 → IsV rows cols mask k → sn r.1 k = true := by
+      intro k hk hVk
+      by_cases e : k = m
+      · subst e; exact (F1 k).mpr (Or.inr Relation.ReflTransGen.refl)
+      · exact (F1 k).mpr (Or.inl (O.done k (by omega) hVk))
+    by_cases htb : r.2 = true
+    · refine ⟨m :: seeds, m :: seeds2, nd', by simp [O.len], sV', smin', sep', seen', done', ?_, ?_, ?_⟩
+      · exact List.nodup_cons.mpr ⟨fun h => hmnot ((O.mem2 m).mp h).1, O.nd2⟩
+      · simp [htb, O.len2]
+      · intro s
+        constructor
+        · intro h
+          rcases List.mem_cons.mp h with e | e
+          · subst e; exact ⟨List.mem_cons_self, F3.mp htb⟩
+          · exact ⟨List.mem_cons_of_mem _ ((O.mem2 s).mp e).1, ((O.mem2 s).mp e).2⟩
+        · rintro ⟨h1, h2⟩
+          rcases List.mem_cons.mp h1 with e | e
+          · subst e; exact List.mem_cons_self
+          · exact List.mem_cons_of_mem _ ((O.mem2 s).mpr ⟨e, h2⟩)
+    · refine ⟨m :: seeds, seeds2, nd', by simp [O.len], sV', smin', sep', seen', done', O.nd2, ?_, ?_⟩
+      · simp [htb, O.len2]
+      · intro s
+        constructor
+        · intro h
+          exact ⟨List.mem_cons_of_mem _ ((O.mem2 s).mp h).1, ((O.mem2 s).mp h).2⟩
+        · rintro ⟨h1, h2⟩
+          rcases List.mem_cons.mp h1 with e | e
+          · subst e; exact absurd (F3.mpr h2) htb
+          · exact (O.mem2 s).mpr ⟨e, h2⟩
+  · rw [if_neg hc]
+    refine ⟨seeds, seeds2, O.nd, O.len, O.sV, O.smin, O.sep, O.seen, ?_, O.nd2, O.len2, O.mem2⟩
+    intro k hk hVk
+    by_cases e : k = m
+    · subst e
+      simp only [Bool.and_eq_true, Bool.not_eq_true', not_and, Bool.not_eq_false] at hc
+      exact hc hVk.2
+    · exact O.done k (by omega) hVk
+
+theorem outer_inv (rows cols : Nat) (mask : Array Bool) (conn8 : Bool) :
+    ∀ m, m ≤ rows * cols → ∃ seeds seeds2, OInv rows cols mask conn8 m
+      ((List.range m).foldl (outF rows cols mask conn8) (Array.replicate (rows * cols) false, 0, 0)) seeds seeds2 := by
+  intro m
+  induction m with
+  | zero =>
+    intro _
+    refine ⟨[], [], List.nodup_nil, rfl, by simp, by simp, by simp, ?_, ?_, List.nodup_nil, rfl, by simp⟩
+    · intro k
+      simp [sn_replicate]
+    · intro k hk; omega
+  | succ m ih =>
+    intro hm
+    obtain ⟨seeds, seeds2, O⟩ := ih (by omega)
+    rw [List.range_succ, List.foldl_append, List.foldl_cons, List.foldl_nil]
+    exact O.next (by omega)
+
 end Mahotas.C15
